@@ -186,6 +186,27 @@ func init() {
 		e.assume(st, tb.Eq(r, tb.And(tb.Eq(a.slLen(), b.slLen()), same)))
 		k(st, scalar(r))
 	}
+	libSpecs["bytes.Repeat"] = func(e *Engine, st *State, fn *ssa.Function, args []Val, pos token.Pos, k Kont) {
+		tb := e.tb
+		b := e.materialiseIfSlice(st, args[0], fn.Signature.Params().At(0).Type())
+		cnt := args[1].T[0]
+		e.oblige(st, "panic", "bytes.Repeat", pos, tb.Ge(cnt, tb.Int(0)), "bytes.Repeat: negative Repeat count")
+		n := tb.Mul(b.slLen(), cnt)
+		e.oblige(st, "panic", "bytes.Repeat", pos, tb.Le(n, tb.BigInt(maxLen)), "bytes.Repeat: result too large")
+		res := e.allocSlice(st, types.Typ[types.Uint8], n, n)
+		if c, ok := cnt.ConstInt(); ok && c == 1 {
+			h := e.H(st, "E:uint8", SArr2I)
+			src := tb.Select(h, b.slArr())
+			nr := tb.Fresh("repeat_row", SArrI)
+			i := tb.BoundVar("i", SInt)
+			e.assume(st, tb.Forall([]*Term{i}, tb.Implies(tb.And(tb.Le(tb.Int(0), i), tb.Lt(i, b.slLen())), tb.Eq(tb.Select(nr, i), tb.Select(src, tb.Add(b.slOff(), i)))), []*Term{tb.Select(nr, i)}))
+			e.setH(st, "E:uint8", tb.Store(h, res.slArr(), nr))
+		} else {
+			h := e.H(st, "E:uint8", SArr2I)
+			e.setH(st, "E:uint8", tb.Store(h, res.slArr(), tb.Fresh("repeat_row", SArrI)))
+		}
+		k(st, res)
+	}
 	// ---- sync: no concurrency semantics; lock state tracked in ghost "held" ----
 	lockOp := func(acquire bool, try bool) LibFn {
 		return func(e *Engine, st *State, fn *ssa.Function, args []Val, pos token.Pos, k Kont) {
